@@ -413,6 +413,35 @@ func (c *c5run) opMarshal(p []Step) {
 	c.nops++
 }
 
+// NewTypedNode(t, et, kt, children...) of the target's own children: the bytes must be the marshalled target
+// (check op 8, judged exactly like Marshal)
+func (c *c5run) opTyped(p []Step) {
+	t, st := c.nav(p)
+	if st != 0 || len(t.Next) == 0 {
+		c.opMarshal(p)
+		return
+	}
+	switch t.Node.Type() {
+	case thrift.STRUCT, thrift.LIST, thrift.SET, thrift.MAP:
+	default:
+		c.opMarshal(p)
+		return
+	}
+	c.add("n8")
+	c.add(pathFields(p)...)
+	var out []byte
+	ok, _ := noPanic(func() {
+		n := generic.NewTypedNode(t.Node.Type(), t.Node.ElemType(), t.Node.KeyType(), t.Next...)
+		out = n.Raw()
+	})
+	if !ok {
+		c.add("n3", fx(nil))
+	} else {
+		c.add("n0", fx(out))
+	}
+	c.nops++
+}
+
 func (c *c5run) opGet(p []Step, k Step) {
 	c.add("n3")
 	c.add(pathFields(p)...)
@@ -636,7 +665,11 @@ func (c *c5run) editsOn(tg *c5target, n int) {
 				c.opGet(tg.path, Step{Kind: 4, N: 1})
 			}
 		default:
-			c.opMarshal(tg.path)
+			if r.chance(40) {
+				c.opTyped(tg.path)
+			} else {
+				c.opMarshal(tg.path)
+			}
 		}
 	}
 }
